@@ -347,24 +347,6 @@ class MultitaskMultivariateNormal(MultivariateNormal):
                     self.lazy_covariance_matrix.diagonal()[batch_idx + (row_idx * num_cols + col_idx,)]
                 )
                 return MultivariateNormal(mean=new_mean, covariance_matrix=new_cov)
-            elif isinstance(row_idx, int) and isinstance(col_idx, slice):
-                # A block of the covariance matrix
-                row_idx = _normalize_index(row_idx, num_rows)
-                col_idx = _normalize_slice(col_idx, num_cols)
-                new_slice = slice(
-                    col_idx.start + row_idx * num_cols,
-                    col_idx.stop + row_idx * num_cols,
-                    col_idx.step,
-                )
-                new_cov = self.lazy_covariance_matrix[batch_idx + (new_slice, new_slice)]
-                return MultivariateNormal(mean=new_mean, covariance_matrix=new_cov)
-            elif isinstance(row_idx, slice) and isinstance(col_idx, int):
-                # A block of the reversely interleaved covariance matrix
-                row_idx = _normalize_slice(row_idx, num_rows)
-                col_idx = _normalize_index(col_idx, num_cols)
-                new_slice = slice(row_idx.start + col_idx, row_idx.stop * num_cols + col_idx, row_idx.step * num_cols)
-                new_cov = self.lazy_covariance_matrix[batch_idx + (new_slice, new_slice)]
-                return MultivariateNormal(mean=new_mean, covariance_matrix=new_cov)
             elif (
                 isinstance(row_idx, slice)
                 and isinstance(col_idx, slice)
@@ -377,26 +359,32 @@ class MultitaskMultivariateNormal(MultivariateNormal):
                     interleaved=self._interleaved,
                     validate_args=False,
                 )
-            elif isinstance(row_idx, slice) or isinstance(col_idx, slice):
-                # slice x slice or indices x slice or slice x indices
-                if isinstance(row_idx, slice):
-                    row_idx = torch.arange(num_rows)[row_idx]
-                if isinstance(col_idx, slice):
-                    col_idx = torch.arange(num_cols)[col_idx]
-                row_grid, col_grid = torch.meshgrid(row_idx, col_idx, indexing="ij")
+
+            # General case: translate both indices into explicit, non-negative positions (this is what makes
+            # negative ints / index tensors, open-ended or out-of-range slices and steps select the same
+            # (point, task) pairs in the covariance matrix as they select in the mean)
+            row_is_slice, col_is_slice = isinstance(row_idx, slice), isinstance(col_idx, slice)
+            row_pos = _index_positions(row_idx, num_rows)
+            col_pos = _index_positions(col_idx, num_cols)
+            if row_is_slice or col_is_slice:
+                # (slice or int or indices) x slice, slice x (int or indices): all combinations of rows and columns
+                row_grid, col_grid = torch.meshgrid(row_pos.reshape(-1), col_pos.reshape(-1), indexing="ij")
                 indices = (row_grid * num_cols + col_grid).reshape(-1)
-                new_cov = self.lazy_covariance_matrix[batch_idx + (indices,)][..., indices]
+            else:
+                # row_idx and col_idx have pairs of indices
+                indices = (row_pos * num_cols + col_pos).reshape(-1)
+            new_cov = self.lazy_covariance_matrix
+            if len(batch_idx):
+                new_cov = new_cov[batch_idx + (slice(None), slice(None))]
+            new_cov = new_cov[..., indices, :][..., :, indices]
+            if (row_is_slice or torch.is_tensor(row_idx)) and (col_is_slice or torch.is_tensor(col_idx)) and (
+                row_is_slice or col_is_slice
+            ):
+                # slice x slice or indices x slice or slice x indices
                 return MultitaskMultivariateNormal(
                     mean=new_mean, covariance_matrix=new_cov, interleaved=self._interleaved, validate_args=False
                 )
-            else:
-                # row_idx and col_idx have pairs of indices
-                indices = row_idx * num_cols + col_idx
-                new_cov = self.lazy_covariance_matrix[batch_idx + (indices,)][..., indices]
-                return MultivariateNormal(
-                    mean=new_mean,
-                    covariance_matrix=new_cov,
-                )
+            return MultivariateNormal(mean=new_mean, covariance_matrix=new_cov)
 
     def __repr__(self) -> str:
         return f"MultitaskMultivariateNormal(mean shape: {self._output_shape})"
@@ -407,6 +395,14 @@ def _normalize_index(i: int, dim_size: int) -> int:
         return dim_size + i
     else:
         return i
+
+
+def _index_positions(i, dim_size: int) -> torch.Tensor:
+    """The non-negative positions that an int, slice or index tensor selects along a dimension of size dim_size."""
+    if isinstance(i, slice):
+        return torch.arange(dim_size)[i]
+    i = torch.as_tensor(i)
+    return torch.where(i < 0, i + dim_size, i)
 
 
 def _normalize_slice(s: slice, dim_size: int) -> slice:
